@@ -31,6 +31,10 @@ CHECKS = {
             "Valid encodings (frame streams, batch bodies, codec payloads, compressed payloads, a publisher's compress(batch(encode)) output) are corrupted by seeded faults (bit flips, truncation, insertion/deletion, duplicated chunks, adversarial length fields up to 2^64-1, random bytes) and decoded under seeded chunking; a panic, an allocation request beyond 256 MiB + 16 x input, a worker abort or a hang is a violation; uncorrupted inputs must still decode. N part: a raw peer sends the same kinds of crafted payloads to a real library Subscriber, Requestor and Replier and raw garbage to the real server; no task may panic, the consumer must reach the sentinel/answer, and the server must still serve a clean round trip.",
             "Third-party decompressors are exercised as black boxes through selium-std's wrappers; N part runs few hundred scenarios per quick run.",
             "DESIGN.md §5 C06"),
+    "C07": ("exploration", "N", "deterministic simulation: generated topic names presented by raw peers and library clients to the simulated server, plus concurrent use of similar names",
+            "Names generated around every boundary of the grammar (component lengths, character classes, '/' placement, non-ASCII characters in each position, the reserved word) are sent unchecked by a raw peer in all four roles to the real server, given to all four library builders inside tasks, and to TopicName::try_from/create/Display. For all-ASCII input the verdict must be exactly the stated rule on every path (server: Ok vs Error{INVALID_TOPIC_NAME}); never a panic or an unanswered registration; accepted names print back unchanged; pairs of similar valid names used concurrently never share pub/sub or request/reply traffic.",
+            "For input with non-ASCII characters the accept/reject verdict itself is not asserted (the statement does not pin down Unicode classes); only absence of panics, agreement between library and parser, and round-tripping.",
+            "DESIGN.md §5 C07"),
     "C08": ("fault_enumeration", "R", "deterministic simulation with fault injection: complete list of peer-failure placements, each under seeded schedules",
             "Every point of a listed space of fault placements (failing peer position x sink operation x message index; failing/ending stream x index; bound replier sink failing, then a fresh replier) is executed against the real routers under seeded ready/pending schedules of the healthy peers, plus random one- and two-peer failures; healthy peers must satisfy the C01/C02 models, the router must not panic, a failed replier must be replaceable.",
             "A failure is a sink operation returning Err from a scripted point on, or a stream yielding Err/ending; bounds as stated in the evidence (exhaustive_space).",
@@ -59,10 +63,18 @@ CHECKS = {
             "8-24 publisher/subscriber stream pairs per run, each with its own codec and compression algorithm/mode/level (every explicit level of the supported ranges is drawn) and payloads from the classes empty / 1 byte / incompressible / repetitive / structured / (thorough) near the frame limit, with and without batching, so the wire composition encode -> batch -> compress -> decompress -> unbatch -> decode runs; every received value must equal the sent one in order. A raw publisher injects payloads that are invalid for the subscriber's codec (invalid UTF-8, truncated bincode): they must surface as Err, valid ones as the value.",
             "Pure at the function level; decided as traffic (DESIGN.md §0). 1 MiB payloads only in the thorough tier.",
             "DESIGN.md §5 C14"),
+    "C15": ("fault_enumeration", "N", "deterministic simulation: the full client x server identity matrix over real rustls under seeded handshake-time network faults",
+            "All 8 pairings of client identity {CA-issued, issued by another CA, self-signed, none} and server identity {CA-issued, issued by another CA}, keys freshly generated per run by the bundled generator from the run's entropy stream, handshakes under seeded loss/duplication/reordering; the refused peer is played by the library client and by a raw quinn client. connect + first registration + one delivered message must succeed iff both sides chain to the configured CA; otherwise the error must appear no later than the first registration and a trusted subscriber must receive nothing from the refused peer.",
+            "Certificate expiry is not exercised (fixed validity so no wall clock enters); real rustls verifiers, quic::server_config and configure_client run unmodified.",
+            "DESIGN.md §5 C15"),
     "C16": ("exploration", "R", "deterministic simulation: registration channel closed at a seeded step of pub/sub and request/reply router schedules",
             "The sender returned by Topic::pair() is closed or dropped at an arbitrary step (idle, item buffered, flush pending, one side only, rejection in progress); once every sink accepts data the router future must complete within the poll budget and (pub/sub) every accepted item must be handed over and flushed first.",
             "close_channel on the pair() sender is what Server::shutdown does; N-engine smoke of Server::verif_shutdown not built yet.",
             "DESIGN.md §5 C16"),
+    "C17": ("exploration", "N", "deterministic simulation with fault injection: stalled reader and over-full registration queue on one topic, liveness probe on another, over the simulated network",
+            "A raw subscriber with shrunken receive windows stops reading on topic A (server send window shrunk so the router blocks after kilobytes); up to 200 further registrations from several raw connections queue on A, before and after the stall, in particular more than the 100+1 the registration queue holds; then two fresh library clients must connect, open a subscriber and a publisher on topic B and exchange a message within 10 virtual seconds.",
+            "Runs where the stall did not materialise are inconclusive; one stalled topic per run.",
+            "DESIGN.md §5 C17"),
 }
 
 PENDING_REASON = "no check built yet in this session; the design for it is in DESIGN.md §5 (not claimed until the check exists and passes on the unchanged tree)"
